@@ -123,6 +123,12 @@ pub trait Property: Sync + Send {
     fn plan(&self, tier: Tier) -> Plan;
     fn run(&self, tape: &mut Tape, ctx: &Ctx, stats: &mut Stats) -> ScenarioResult;
     fn evidence_info(&self) -> EvidenceInfo;
+    /// Run once when the harness process starts, before any scenario, in
+    /// batch runs and in replays alike: puts the process into the state of
+    /// one that has already done plenty of ordinary work with the code under
+    /// test, so that scenarios meet the same process history in a replay as
+    /// in the batch that found them.
+    fn process_warm_up(&self) {}
 }
 
 pub fn verif_dir() -> PathBuf {
